@@ -51,6 +51,7 @@ class Monitor:
         self.foreign = False  # True while the repository's own tests drive the calls
         self.classifier = None
         self.per_class = collections.Counter()
+        self.only = None  # set of contract names that count (None = all)
 
     # -- bookkeeping -------------------------------------------------------------------------
     def case(self, case, canon=None, nontrivial=True, sample_every=0):
@@ -63,6 +64,8 @@ class Monitor:
                 self.samples.append(case)
 
     def ev(self, contract, applicable=True):
+        if self.only is not None and contract not in self.only:
+            return
         self.evals[contract] += 1
         if applicable:
             self.applicable[contract] += 1
@@ -77,6 +80,11 @@ class Monitor:
     def violation(self, contract, detail, case=None, key=None, advisory=False):
         """Record a violation.  `key` is the structural class used for de-duplication and for
         matching known findings (never a hash of random values)."""
+        if self.only is not None and contract not in self.only and not contract.startswith("monitor-error"):
+            # cross-workload observation: another property's driver is running under THIS property's
+            # monitors; what that driver's own contracts say is not this check's business
+            self.notes["foreign-contract-ignored"] += 1
+            return
         if advisory or (self.foreign and advisory is None):
             self.notes["advisory:" + contract] += 1
             return
@@ -395,3 +403,46 @@ def finish(prop, tier, seed, monitor, lost, t0, spec):
         f"wall={evidence['wall_s']}s -> exit {code}"
     )
     return code
+
+
+def cross_workloads(m, own_contracts, modules, tier, seed, i, n, per_module):
+    """Run slices of OTHER properties' drivers while this property's intrinsic monitors are attached:
+    more objects, states and call shapes for the same invariants.  Only `own_contracts` count."""
+    import importlib
+    import random
+
+    m.only = set(own_contracts)
+    before = m.cases
+    try:
+        for name in modules:
+            mod = importlib.import_module("props." + name)
+            rng = random.Random(seed * 7919 + i * 31 + hash(name) % 1000)
+            k = max(1, per_module // n)
+            try:
+                if name in ("C04", "C06", "C08", "C09", "C10", "C15", "C17"):
+                    from workloads import designs as D
+
+                    for j in range(k):
+                        case = D.random_case(rng, profile="stateful" if j % 2 else "plain", hostile=(j % 4 == 0),
+                                             group_p=0.6, min_rows=6, with_refs=(j % 3 == 0))
+                        if name == "C09":
+                            case["policy"], case["pattern"] = rng.choice(["drop", "pass"]), rng.choice(["one-cell", "several", "none"])
+                        if name == "C15":
+                            case["single_level"], case["unobserved"] = j % 5 == 0, j % 3 == 0
+                        m.case({"cross": name, **case}, canon=["cross", name, D.formula_text(case), case["frame"]["seed"]])
+                        guarded(mod.judge)(case, m)
+                elif name == "C05":
+                    for kk, case in list(mod.gen_cases(tier, seed, i, n))[: k]:
+                        case = mod.finish(case, kk, seed)
+                        m.case({"cross": name, **case}, canon=["cross", name, mod.build_text(case), case["frame_seed"]])
+                        guarded(mod.judge)(case, m)
+                elif name == "C16":
+                    for j in range(max(1, k // 8)):
+                        case = {"seed": rng.randrange(2 ** 31)}
+                        m.case({"cross": name, **case}, canon=["cross", name, case["seed"]])
+                        guarded(mod.judge)(case, m)
+            except Exception as e:  # a foreign driver must never break this check
+                m.notes["cross-workload-error:" + name + ":" + type(e).__name__] += 1
+    finally:
+        m.only = None
+    m.notes["cross-workload-cases"] += m.cases - before
